@@ -8,7 +8,6 @@ import (
 
 	"github.com/nspcc-dev/neo-go/pkg/encoding/fixedn"
 
-	"verif/harness/internal/hx"
 	"verif/harness/internal/prng"
 )
 
@@ -40,7 +39,7 @@ func genInt64(r *prng.R) int64 {
 
 func f8Str(c *ctx, v int64) string {
 	var s string
-	obs := hx.Safe(func() string {
+	obs := c.safe(func() string {
 		s = fixedn.Fixed8(v).String()
 		return hs(s)
 	})
@@ -51,7 +50,7 @@ func f8Str(c *ctx, v int64) string {
 func f8Parse(c *ctx, s string) (int64, bool) {
 	var v int64
 	okk := false
-	obs := hx.Safe(func() string {
+	obs := c.safe(func() string {
 		f, err := fixedn.Fixed8FromString(s)
 		if err != nil {
 			return "err"
@@ -136,7 +135,7 @@ func famFixed8(c *ctx) {
 func decTo(c *ctx, bi *big.Int, p int) string {
 	var s string
 	arg := new(big.Int).Set(bi)
-	obs := hx.Safe(func() string {
+	obs := c.safe(func() string {
 		s = fixedn.ToString(arg, p)
 		return hs(s)
 	})
@@ -150,7 +149,7 @@ func decTo(c *ctx, bi *big.Int, p int) string {
 func decFrom(c *ctx, s string, p int) (*big.Int, bool) {
 	var v *big.Int
 	okk := false
-	obs := hx.Safe(func() string {
+	obs := c.safe(func() string {
 		x, err := fixedn.FromString(s, p)
 		if err != nil {
 			return "err"
@@ -221,6 +220,27 @@ func famDecimal(c *ctx) {
 		decFrom(c, mutateDecimal(r, s), p)
 	default:
 		decFrom(c, s, r.Intn(41)) // another precision: too many fraction digits is an error
+	}
+	// the power-of-ten table after the conversions of this case: 10^k through the parser for k around
+	// the table size, a second high-precision conversion, and the same number printed again
+	for _, k := range []int{16, r.Intn(19), 17 + r.Intn(24)} {
+		one, ok := decFrom(c, "1", k)
+		if ok {
+			k := k
+			c.pureLine(fmt.Sprintf("pow10 %d", k), one.String(), func() string {
+				x, err := fixedn.FromString("1", k)
+				if err != nil {
+					return "err"
+				}
+				return x.String()
+			})
+		}
+		if !ok || one.Cmp(new(big.Int).Exp(big.NewInt(10), big.NewInt(int64(k)), nil)) != 0 {
+			c.fail("decimal-pow10", "FromString(\"1\", %d) = %v after the conversions of this case", k, one)
+		}
+	}
+	if s2 := decTo(c, bi, p); s2 != s {
+		c.fail("not-a-function-of-arguments", "ToString(%s, %d) = %q, and %q when asked again", bi, p, s, s2)
 	}
 	c.o.Seen(fmt.Sprintf("dec/%s/%d", bi, p))
 }
